@@ -77,6 +77,8 @@ func c16Alphabet() []c16Call {
 		{Name: "ExpandSchemaWithBasePath(v1,N0, options with empty base)", Variant: 1, Fn: "ExpandSchemaWithBasePath", Elem: "/definitions/N0", EmptyBase: true},
 		{Name: "ExpandSpec(v5 acyclic, schema with an id)", Variant: 5, Fn: "ExpandSpec"},
 		{Name: "ExpandSchemaWithBasePath(v5,N0 with an id)", Variant: 5, Fn: "ExpandSchemaWithBasePath", Elem: "/definitions/N0"},
+		{Name: "ExpandSchemaWithBasePath(vendored schema whose id is the draft-04 URL)", Variant: 1, Fn: "id-expand", Raw: `{"id":"http://json-schema.org/draft-04/schema","title":"vendored subset","properties":{"p":{"$ref":"#/definitions/X"},"maxLength":{"title":"not the real one"}},"definitions":{"X":{"title":"x"}}}`},
+		{Name: "ExpandSchemaWithBasePath(vendored schema whose id is the swagger schema URL)", Variant: 2, Fn: "id-expand", Raw: `{"id":"http://swagger.io/v2/schema.json","title":"vendored subset","definitions":{"info":{"title":"not the real one"}},"properties":{"i":{"$ref":"#/definitions/info"}}}`},
 		{Name: "MustLoadJSONSchemaDraft04 expanded in place", Variant: 1, Fn: "meta-load-expand", Raw: "draft04"},
 		{Name: "MustLoadSwagger20Schema expanded in place", Variant: 1, Fn: "meta-load-expand", Raw: "swagger"},
 		{Name: "ExpandSchema(ref to draft-04 meta-schema)", Variant: 1, Fn: "meta-expand", Raw: `{"$ref":"http://json-schema.org/draft-04/schema#"}`},
@@ -206,6 +208,19 @@ func c16Do(cl c16Call) (o c16Obs) {
 		o.Globals = deepGlobals()
 	}()
 	switch cl.Fn {
+	case "id-expand":
+		// a schema of the caller's that declares an id, expanded against a base location
+		var s spec.Schema
+		json.Unmarshal([]byte(cl.Raw), &s)
+		var loads []string
+		err := spec.ExpandSchemaWithBasePath(&s, nil, &spec.ExpandOptions{RelativeBase: cs.Root, PathLoader: cs.loader(&loads)})
+		if err != nil {
+			o.Err = err.Error()
+		}
+		bb, _ := json.Marshal(s)
+		o.Out = string(bb)
+		o.Loads = loads
+		return
 	case "meta-expand":
 		var s spec.Schema
 		json.Unmarshal([]byte(cl.Raw), &s)
